@@ -571,6 +571,7 @@ def rule_h(ctx, ix):
             if not a.endswith('.__init__') and a not in tabled:
                 raise AnalysisError('C17.h: allowed writer %s of %s is not a row of the announce table' % (a, fld))
     seen = {f: 0 for f in WRITERS}
+    views = common.function_views(ix)
 
     def visit(mod, node, stack, cls):
         for ch in ast.iter_child_nodes(node):
@@ -579,7 +580,11 @@ def rule_h(ctx, ix):
             elif isinstance(ch, (ast.FunctionDef, ast.AsyncFunctionDef)):
                 construct = '%s:%s' % (mod.name, '.'.join(stack + [ch.name]))
                 owner_cls = '%s.%s' % (mod.name, stack[0]) if stack else None
-                for fld, recv, n in _struct_writes(ch, set(WRITERS)):
+                # a new private helper whose every call was inlined is read where it runs (in its callers' views below)
+                view = views(ch)
+                if view is None:
+                    continue
+                for fld, recv, n in _struct_writes(view, set(WRITERS)):
                     owner, allowed = WRITERS[fld]
                     if owner is not None:
                         c = ix.classes.get(owner_cls) if owner_cls else None
